@@ -23,7 +23,10 @@ e == Trace[l]
 TInit == l = 1 /\ bad = FALSE /\ kind = "" /\ canon = <<>> /\ canonw = <<>>
 IsStart == e.ev = "Open"
 Returned == e.out = "ret"
+\* kind "parses": a program another generator (ScopeSem.tla) derives, for which no tree is prescribed here: it is accepted
+\* under every Options value ("Parse succeeds"; "the same holds under every Options value")
 Step == CASE e.ev = "Parse" -> IF kind = "accept" THEN e.ok /\ e.str = (IF e.w2f THEN canonw ELSE canon)
+                               ELSE IF kind = "parses" THEN e.ok
                                ELSE kind = "reject" /\ ~e.ok
           [] OTHER -> FALSE
 
